@@ -71,6 +71,9 @@ impl Monitor for C13 {
         for tx in ob.txs.iter().filter(|t| t.kind == TxKind::Stake) {
             if let Ok(doc) = stdcode::deserialize::<StakeDoc>(&tx.data) {
                 st.class(&format!("stake-doc-{}", ordering_class(&doc, e)));
+                if stdcode::serialize(&doc).map_or(false, |c| c[..] != tx.data[..]) {
+                    st.class("stake-doc-in-non-minimal-encoding");
+                }
                 let first_ok = tx.outputs.first().map_or(false, |o| o.denom == Denom::Sym && o.value == doc.syms_staked);
                 if first_ok && doc.e_start > e && doc.e_post_end > doc.e_start {
                     new_ok.insert(tx.hash_nosigs(), doc);
